@@ -161,7 +161,9 @@ CHECKS = {
    note="AXI4-full bridges (AXI2AXILite, AXILite2AXI, AXI2Wishbone, Wishbone2AXI) and AHB2Wishbone are families of the same check "
         "(props/c09b.py, AXI4 burst master / reference memory slave, AHB master agent). Known findings C09-F1 (AXILite2Wishbone "
         "ignores err), C09-F2 (AXILiteUpConverter with several outstanding requests), C09-F4 (AXI2AXILite needs a one-request-"
-        "at-a-time AXI-Lite slave); SoCBusHandler.add_adapter chains are exercised through C14's SoC builds.",
+        "at-a-time AXI-Lite slave). SoCBusHandler.add_adapter() chains (addressing conversion word/byte, standard bridges, both "
+        "directions m2s/s2m, 32-bit on both sides) are family 'adapter' (props/c09_adapter.py); chains with data-width "
+        "conversion are exercised through C14's SoC builds only.",
    tech="deterministic simulation, seeded cross-protocol channel-timing search, reference byte memory + protocol monitors"),
  "C16": dict(cat="exploration", ref="DESIGN.md 5.C16",
    text="Seeded search over header definitions, data widths, packet lists, valid/ready schedules and selector changes for "
